@@ -392,3 +392,32 @@ Theorem C09_tr_push_n_clipped : forall cells n (s : src), src_ok s -> IBUFSZ - s
 Proof. exact push_n_clipped. Qed.
 Print Assumptions C09_tr_push_n_clipped.
 
+
+(* non-vacuity: the program's zero-initialised statics plus a terminal block satisfy src_at (for every terminal input), the linked oracle
+   over the kernel satisfies reads_ok / back_ok, and the translated functions RUN: with the terminal holding `12x`, vi_prefix() returns 12
+   and leaves x pushed back (vi_buflen = 1, vi_buf[0] = 'x', the three keys recorded in icmd); the next vi_read() returns 'x'; with
+   rep_cmd = "dw", rep_len = 2, vi_arg1 = 3 vc_repeat() leaves d w d w d w in ibuf, ibuf_cnt = 6 *)
+Example C09_tr_repeat_nonvacuous : forall tin, Forall (fun c => 0 <= c < 256) tin ->
+  src_at (length cglobals) (cglobals ++ [map VInt tin]) (mkSrc [] 0 0 gb_ibuf 0 gb_icmd tin) /\ kt_fresh (length cglobals) /\
+  reads_ok (link (kern (length cglobals)) 50 5) (length cglobals) /\ back_ok (link (kern (length cglobals)) 50 5) (length cglobals).
+Proof.
+  intros tin H. split; [exact (src_at_start tin H)|]. split; [exact kt_fresh_start|].
+  split; [exact (link_reads_ok _ _ 50 2 (kern_is_kernel _) kt_fresh_start)|exact (link_back_ok _ _ 50 2 kt_fresh_start)].
+Qed.
+Example C09_tr_repeat_runs :
+  let kt := length cglobals in
+  let m0 := cglobals ++ [map VInt [49; 50; 120]] in
+  let ext := link (kern kt) 50 5 in
+  match callx ext cprog 50 3 F_vi_prefix [] m0 with
+  | Ok (v, m1) =>
+    v = VInt 12 /\ peek1 m1 G_vi_buflen = Some 1 /\ peek m1 G_vi_buf 1 = [VInt 120] /\
+    peek1 m1 G_icmd_pos = Some 3 /\ peek m1 G_icmd 3 = map VInt [49; 50; 120] /\
+    match callx (kern kt) cprog 50 5 F_vi_read [] m1 with
+    | Ok (c, m2) => c = VInt 120 /\ peek1 m2 G_vi_buflen = Some 0
+    | _ => False end
+  | _ => False end /\
+  let mr a1 := upd (upd (upd m0 G_rep_cmd (VInt 100 :: VInt 119 :: skipn 2 gb_rep_cmd)) G_rep_len [VInt 2]) G_vi_arg1 [VInt a1] in
+  match callx (kern kt) cprog 50 3 F_vc_repeat [] (mr 3) with
+  | Ok (_, m1) => peek m1 G_ibuf 7 = map VInt [100; 119; 100; 119; 100; 119; 0] /\ peek1 m1 G_ibuf_cnt = Some 6 /\ peek1 m1 G_ibuf_pos = Some 0
+  | _ => False end.
+Proof. vm_compute. repeat split; reflexivity. Qed.
